@@ -79,7 +79,29 @@ EXPLANATION = (
     "only a variable that is identical in both states is handed the merged "
     "block condition; R18.7 conditions, bindings and variables are frozen "
     "value objects (hashable, immutable), which the set-based constructors "
-    "and the sharing of variables between states rely on.  The condition "
+    "and the sharing of variables between states rely on.  How the code is "
+    "laid out is immaterial to all of this: the rules read the three files "
+    "through virtual modules (rules/_util_c12c17c18) in which methods "
+    "inherited from a base class / mixin of the file are the class's own "
+    "(local C3 linearisation), module-local helpers (`_restrict(b, c)`, "
+    "`self._copy()`, `self/other._explicit_local(name)`, "
+    "`_union_bindings(a, b)`) are inlined where that preserves behaviour, "
+    "independent parallel assignments are split and a statement-level dict "
+    "comprehension is the loop it abbreviates; hoisted temporaries "
+    "(`accept = cls._ACCEPT`) are resolved; the final arms of make and the "
+    "loop bodies of merge_into are *run* per world (U.run_world: every test "
+    "decided by the world, values symbolic), so elif / guard clause / "
+    "continue / conditional expression / `(only,) = members` forms are the "
+    "same thing.  R18.3, R18.4 (both sides) and R18.6 share one name-by-name "
+    "model of merge_into (_Merge): for each of the 12 worlds (name local to "
+    "self / other / both, variables equal, implicit in self's / other's "
+    "set) the loop bodies are executed in source order and yield what the "
+    "merged state holds for the name - `X._locals[name]`, "
+    "`....with_condition(c)` or a map folded over the bindings of several "
+    "variables - and whether the name is marked; any store, call or test "
+    "outside that vocabulary is an analysis error.  R18.5 judges every "
+    "BlockState(...) construction of the file in the function it is "
+    "written in.  The condition "
     "constructors are decided completely; for the merge the rules are "
     "necessary conditions only: they do not prove the union property (it "
     "additionally rests on the invariant that an explicit binding condition "
@@ -94,6 +116,13 @@ ASSUMPTIONS = [
     "state's condition (true for states produced by store_local, "
     "with_condition and merge_into; not checked for hand-built states)",
     "values are hashable (they key the value->condition map)",
+    "merge_into, name by name: each loop iteration for `name` touches only "
+    "merged_locals[name] and the membership of `name` in the merged implicit "
+    "set (checked), the implicit set of a state is a subset of its locals, "
+    "Variable.with_condition has no side effect (R18.7: frozen value object)",
+    "a method inherited from / a helper called on `self` or a parameter "
+    "annotated with a class of the file is resolved in exactly that class "
+    "(no subclass overrides it elsewhere)",
     "_And and _Or are the only subclasses of _Composite and inherit make "
     "unchanged, so inside make `cls` is the connective being built and "
     "isinstance(x, cls) / type(x) is cls both mean 'a term of that "
@@ -223,9 +252,11 @@ def _init_roles(mod):
   for n in walk_no_nested(fn):
     if isinstance(n, ast.Assign) and len(n.targets) == 1 and \
         isinstance(n.targets[0], ast.Attribute) and \
-        src(n.targets[0].value) == ps[0] and isinstance(n.value, ast.Name) and \
-        n.value.id in ps[1:]:
-      roles[n.value.id] = n.targets[0].attr
+        src(n.targets[0].value) == ps[0]:
+      # `self.f = p` or `self.f = p if <test> else <default>`
+      for leaf, _ in S.expand_ifexp(n.value):
+        if isinstance(leaf, ast.Name) and leaf.id in ps[1:]:
+          roles[leaf.id] = n.targets[0].attr
   want = {"_locals", "_condition", "_locals_with_block_condition"}
   if set(roles.values()) != want or len(roles) != 3:
     raise AnalysisError(f"BlockState.__init__ initialises {roles}")
@@ -262,49 +293,6 @@ def _items_loop(loops, owner, fnname):
           all(isinstance(x, ast.Name) for x in l.target.elts)):
     raise AnalysisError(f"{fnname}: loop target `{src(l.target)}`")
   return l, l.target.elts[0].id, l.target.elts[1].id
-
-
-def _pure_temp(s, sym):
-  """`name = <dotted name / constant>` bound once at the top level: a hoisted
-  temporary (`accept = cls._ACCEPT`), resolved through sym wherever it is read."""
-  return (isinstance(s, ast.Assign) and len(s.targets) == 1 and
-          isinstance(s.targets[0], ast.Name) and
-          s.targets[0].id in sym.sequential and
-          sym.counts.get(s.targets[0].id) == 1 and
-          (dotted(s.value) is not None or isinstance(s.value, ast.Constant)))
-
-
-def _make_shape(fn, loop, sym):
-  """(accumulator, its initial value, its initialisation, statements after the
-  loop) of make; before the loop only the accumulator and hoisted temporaries
-  may be bound."""
-  used = {n.id for n in ast.walk(loop) if isinstance(n, ast.Name)}
-  cands, final, seen_loop = [], [], False
-  for s_ in fn.body:
-    if s_ is loop:
-      seen_loop = True
-      continue
-    if isinstance(s_, ast.Expr) and isinstance(s_.value, ast.Constant):
-      continue
-    if seen_loop:
-      final.append(s_)
-      continue
-    if _pure_temp(s_, sym):
-      continue
-    if isinstance(s_, ast.Assign) and len(s_.targets) == 1 and \
-        isinstance(s_.targets[0], ast.Name) and s_.targets[0].id in used:
-      cands.append((s_.targets[0].id, s_.value, s_))
-      continue
-    raise AnalysisError(
-        f"{fn.name}: statement `{src(s_)[:60]}` before the loop is outside "
-        "the combinator schema")
-  if len(cands) != 1:
-    raise AnalysisError(
-        f"{fn.name}: expected one accumulator initialised before the loop, "
-        f"found {[c[0] for c in cands]}")
-  if not final:
-    raise AnalysisError(f"{fn.name}: nothing is returned after the loop")
-  return cands[0][0], cands[0][1], cands[0][2], final
 
 
 # ---------------------------------------------------------------------------
@@ -347,7 +335,7 @@ def r18_1(ctx):
   a = loop.target.id
   if sym.counts.get(a, 0) != 1:
     raise AnalysisError(f"_Composite.make rebinds the loop variable {a}")
-  acc, init, init_stmt, final_stmts = _make_shape(fn, loop, sym)
+  acc, init, init_stmt, final_stmts = U.combinator_shape(fn, loop, sym)
   actions = S.loop_actions(mod, fn, loop, sym, acc)
   negs = (f"Not({a})", f"_Not.make({a})", f"_Not({a})")
 
@@ -900,6 +888,14 @@ def _merge_returns(mod, fn, sym, other):
 # ---------------------------------------------------------------------------
 # the merge, name by name
 
+class _NeedAtom(Exception):
+  """The world does not fix the truth value of a test yet: split it."""
+
+  def __init__(self, key):
+    super().__init__(key)
+    self.key = key
+
+
 class _Merge:
   """merge_into evaluated per local name.
 
@@ -917,7 +913,14 @@ class _Merge:
   map filled from `a.bindings + b.bindings` (the fold loop itself is R18.4's
   business).  Control-flow shape (elif / guard clause / continue / helper
   functions inlined by _vstate / loop over items() or over keys) is
-  immaterial."""
+  immaterial.  Two further kinds of test are understood: `X._condition is
+  conditions.TRUE` (with_condition(TRUE) returns the variable itself, so in
+  such a world a conditioned and an unconditioned variable are the same
+  thing) and tests that mention neither the name nor any of the containers:
+  they say something about the two states as a whole, cannot be derived from
+  what the world fixes, and are enumerated both ways (`all_worlds` splits a
+  world lazily when such a test is met) - an obligation that fails under one
+  of the two values is a violation reported with that value."""
 
   def __init__(self, ctx):
     self.mod = mod = _vstate(ctx)
@@ -1017,8 +1020,34 @@ class _Merge:
   @staticmethod
   def label(w):
     ins = [x for x, v in w["in"].items() if v]
+    extra = "".join(f",[{k}]={v}" for k, v in sorted(w.get("extra", {}).items()))
     return (f"in={'+'.join(ins)},equal={w['equal']},"
-            f"implicit={'+'.join(x for x, v in w['impl'].items() if v) or '-'}")
+            f"implicit={'+'.join(x for x, v in w['impl'].items() if v) or '-'}{extra}")
+
+  def all_worlds(self):
+    """[(world, stored term, marked)] with lazily split worlds."""
+    if hasattr(self, "_results"):
+      return self._results
+    out, todo = [], list(reversed(self.worlds()))
+    while todo:
+      w = todo.pop()
+      if len(out) + len(todo) > 120:
+        raise AnalysisError("merge_into: too many independent tests to enumerate")
+      try:
+        term, marked = self.run(w)
+      except _NeedAtom as e:
+        for val in (False, True):
+          w2 = dict(w)
+          w2["extra"] = dict(w.get("extra", {}), **{e.key: val})
+          todo.append(w2)
+        continue
+      out.append((w, term, marked))
+    self._results = out
+    return out
+
+  def cond_is_true(self, w, x):
+    """In world w the block condition of x is known to be conditions.TRUE."""
+    return w.get("extra", {}).get(f"{x}._condition is TRUE") is True
 
   def run(self, w):
     """(term stored for the name or None, marked?) in world w."""
@@ -1059,6 +1088,27 @@ class _Merge:
         if isinstance(op, (ast.Eq, ast.NotEq)) and \
             {l, r} == {self.var_of(me), self.var_of(other)}:
           return w["equal"] == isinstance(op, ast.Eq)
+        if isinstance(op, (ast.Is, ast.IsNot)) and {l, r} == {other, "None"}:
+          return isinstance(op, ast.IsNot)     # past the `if not other` exit
+        if isinstance(op, (ast.Is, ast.IsNot)):
+          for x in (me, other):
+            if {l, r} == {f"{x}._condition", "conditions.TRUE"}:
+              k = f"{x}._condition is TRUE"
+              if k not in w.get("extra", {}):
+                raise _NeedAtom(k)
+              return w["extra"][k] == isinstance(op, ast.Is)
+      if src(t) == other:
+        return True                            # past the `if not other` exit
+      # a test about the two states as a whole
+      names = {n.id for n in ast.walk(t) if isinstance(n, ast.Name)}
+      attrs = {n.attr for n in ast.walk(t) if isinstance(n, ast.Attribute)}
+      if not (names & {key, L, W}) and not (
+          attrs & {"_locals", "_locals_with_block_condition"}) and \
+          not any(isinstance(n, (ast.NamedExpr, ast.Await, ast.Yield)) for n in ast.walk(t)):
+        k = src(t)
+        if k not in w.get("extra", {}):
+          raise _NeedAtom(k)
+        return w["extra"][k]
       return None
 
     def effect(s_, env, value):
@@ -1181,10 +1231,9 @@ def r18_3(ctx):
   conds = {me: f"{me}._condition", other: f"{other}._condition"}
   for owner, label in ((me, "self-side"), (other, "other-side")):
     problems, facts, line = [], {}, m.fn.lineno
-    for w in m.worlds():
+    for w, term, _ in m.all_worlds():
       if not w["in"][owner] or (w["equal"] and all(w["in"].values())):
         continue
-      term, _ = m.run(w)
       contrib, _ = m.contributions(term)
       got = contrib.get(owner)
       facts[m.label(w)] = src(term) if term is not None else None
@@ -1197,6 +1246,8 @@ def r18_3(ctx):
       if kind == "other" or (kind == "cond" and c not in conds.values()):
         raise AnalysisError(
             f"merge_into: `{owner}`'s variable is stored as `{c}` [{m.label(w)}]")
+      if m.cond_is_true(w, owner) and (kind == "raw" or c == conds[owner]):
+        continue                     # with_condition(TRUE) is the identity
       if w["impl"][owner]:
         if kind == "raw":
           problems.append(
@@ -1305,10 +1356,9 @@ def r18_4(ctx):
   # different variables for a name, what is stored for it is built from a map
   # folded over the bindings of both
   folded, missing = {}, []
-  for w in m.worlds():
+  for w, term, _ in m.all_worlds():
     if not all(w["in"].values()) or w["equal"]:
       continue
-    term, _ = m.run(w)
     contrib, is_fold = m.contributions(term, allow_dups=True)
     folded[m.label(w)] = src(term)[:160] if term is not None else None
     lacking = [x for x in (me, other) if x not in contrib]
@@ -1476,13 +1526,20 @@ def r18_5(ctx):
   for n in walk_no_nested(init):
     if isinstance(n, ast.Assign) and len(n.targets) == 1 and \
         src(n.targets[0]) == "self._locals_with_block_condition":
-      g = [(src(t), p) for t, p in S.guards(mod, n)]
-      if g in ([(f"{wp} is None", True)], [(f"{wp} is not None", False)]):
-        vals["default"] = src(n.value)
-      elif g in ([(f"{wp} is None", False)], [(f"{wp} is not None", True)]):
-        vals["given"] = src(n.value)
-      else:
-        raise AnalysisError(f"BlockState.__init__: implicit set assigned under {g}")
+      base = [(src(t), p) for t, p in S.guards(mod, n)]
+      # if/else statement or conditional expression: the same two arms
+      for leaf, conds in S.expand_ifexp(n.value):
+        g = []
+        for t, p in base + [(src(t), p) for t, p in conds]:
+          while t.startswith("not "):
+            t, p = t[4:], not p
+          g.append((t, p))
+        if g in ([(f"{wp} is None", True)], [(f"{wp} is not None", False)]):
+          vals["default"] = src(leaf)
+        elif g in ([(f"{wp} is None", False)], [(f"{wp} is not None", True)]):
+          vals["given"] = src(leaf)
+        else:
+          raise AnalysisError(f"BlockState.__init__: implicit set assigned under {g}")
   if set(vals) != {"default", "given"} or vals["given"] != wp:
     raise AnalysisError(f"BlockState.__init__: implicit set initialised as {vals}")
   ctx.check(vals["default"] in (f"set({lp})", f"set({lp}.keys())", f"set(self._locals)"),
@@ -1533,8 +1590,7 @@ def r18_6(ctx):
   m = _merge_model(ctx)
   me, other = m.me, m.other
   res = {}
-  for w in m.worlds():
-    term, marked = m.run(w)
+  for w, term, marked in m.all_worlds():
     contrib, is_fold = m.contributions(term)
     res[m.label(w)] = (w, term, marked, contrib, is_fold)
 
@@ -1558,7 +1614,9 @@ def r18_6(ctx):
             f"found {fmt(diff)} and {m.marks_elsewhere} marks elsewhere",
             {"marks_elsewhere": m.marks_elsewhere, **fmt(diff)})
   expl = [l for l in diff if res[l][0]["in"][me] and not res[l][0]["impl"][me]]
-  ok = all(res[l][3].get(me) == ("raw", None) for l in expl)
+  ok = all(res[l][3].get(me) == ("raw", None) or
+           (m.cond_is_true(res[l][0], me) and
+            res[l][3].get(me) == ("cond", f"{me}._condition")) for l in expl)
   ctx.check(ok, "merge_into:explicit-kept", ST, line,
             "a differing variable whose conditions are already explicit must "
             f"be stored unchanged; found {fmt(expl)}", fmt(expl))
@@ -2036,6 +2094,11 @@ VARIANTS = [
                                 "      other._explicit_local(name)\n"
                                 "      var = other._locals[name]\n"))
                for f, o, n in _explicit_helper()]},
+    {"name": "explicit-helper-outside-the-inliner", "rule": "R18.3", "expect": "error",
+     "edits": [(f, o, n.replace(
+         "    var = self._locals[name]\n",
+         "    for var in (self._locals[name],):\n      if var is None:\n        return var\n"))
+               for f, o, n in _explicit_helper()]},
     {"name": "twin-union-in-a-module-function", "rule": "R18.4", "expect": "silent",
      "edits": _union_helper()},
     {"name": "union-helper-folds-one-side", "rule": "R18.4", "expect": "fire",
@@ -2082,6 +2145,19 @@ VARIANTS = [
          (ST, "  def with_condition(self, condition: conditions.Condition) -> 'BlockState[_T]':",
           "  def get_locals(self):\n    return self._locals\n\n"
           "  def with_condition(self, condition: conditions.Condition) -> 'BlockState[_T]':")]},
+    {"name": "seeded-C18-m2", "rule": "R18.3", "patch": "seeded/C18-m2/patch.diff",
+     "expect": "fire"},
+    {"name": "conditioning-skipped-under-a-test-on-the-states", "rule": "R18.3", "file": ST,
+     "expect": "fire",
+     "old": "      if name in other._locals_with_block_condition:\n",
+     "new": "      if name in other._locals_with_block_condition and other._condition != self._condition:\n"},
+    {"name": "twin-no-conditioning-with-TRUE", "rule": "R18.3", "file": ST, "expect": "silent",
+     "old": "      elif name in self._locals_with_block_condition:\n",
+     "new": "      elif (name in self._locals_with_block_condition and\n"
+            "            self._condition is not conditions.TRUE):\n"},
+    {"name": "twin-redundant-none-test", "rule": "R18.3", "file": ST, "expect": "silent",
+     "old": "      if name in other._locals_with_block_condition:\n",
+     "new": "      if other is not None and name in other._locals_with_block_condition:\n"},
     # R18.3
     {"name": "merge-self-side-gets-other-condition", "rule": "R18.3", "file": ST, "expect": "fire",
      "old": "        locals_[name] = var.with_condition(self._condition)",
@@ -2155,6 +2231,24 @@ VARIANTS = [
     {"name": "default-implicit-set-empty", "rule": "R18.5", "file": ST, "expect": "fire",
      "old": "      self._locals_with_block_condition = set(locals_)\n",
      "new": "      self._locals_with_block_condition = set()\n"},
+    {"name": "twin-default-implicit-set-conditional-expression", "rule": "R18.5", "file": ST,
+     "expect": "silent",
+     "old": "    if locals_with_block_condition is None:\n"
+            "      self._locals_with_block_condition = set(locals_)\n"
+            "    else:\n"
+            "      self._locals_with_block_condition = locals_with_block_condition\n",
+     "new": "    self._locals_with_block_condition = (\n"
+            "        locals_with_block_condition\n"
+            "        if locals_with_block_condition is not None else set(locals_))\n"},
+    {"name": "default-implicit-set-conditional-expression-empty", "rule": "R18.5", "file": ST,
+     "expect": "fire",
+     "old": "    if locals_with_block_condition is None:\n"
+            "      self._locals_with_block_condition = set(locals_)\n"
+            "    else:\n"
+            "      self._locals_with_block_condition = locals_with_block_condition\n",
+     "new": "    self._locals_with_block_condition = (\n"
+            "        locals_with_block_condition\n"
+            "        if locals_with_block_condition is not None else set())\n"},
     {"name": "twin-reorder-independent-inits", "rule": "R18.5", "file": ST, "expect": "silent",
      "old": "    locals_ = {}\n    locals_with_block_condition = set()\n",
      "new": "    locals_with_block_condition = set()\n    locals_ = dict()\n"},
